@@ -38,14 +38,16 @@ def post_selection(draw, n_modes, max_photons):
     pk = draw(st.sampled_from(["max-le", "mode-ne", "total-in", "state-api"]))
     if pk == "state-api":
         # a predicate written against the documented argument type (State): uses n_photons / n_modes / slicing
-        return {"pred": ["state-api", draw(st.integers(0, max(1, max_photons))), draw(st.integers(0, n_modes - 1))]}
+        return {"pred": ["state-api", draw(st.integers(0, max(1, max_photons))), draw(st.integers(0, n_modes - 1))],
+                "wrap": draw(st.booleans())}
     if pk == "max-le":
-        return {"pred": ["max-le", draw(st.integers(1, 2))]}
+        return {"pred": ["max-le", draw(st.integers(1, 2))], "wrap": draw(st.booleans())}
     if pk == "mode-ne":
-        return {"pred": ["mode-ne", draw(st.integers(0, n_modes - 1)), draw(st.integers(0, 1))]}
+        return {"pred": ["mode-ne", draw(st.integers(0, n_modes - 1)), draw(st.integers(0, 1))],
+                "wrap": draw(st.booleans())}
     modes = draw(st.lists(st.integers(0, n_modes - 1), unique=True, min_size=1, max_size=3))
     counts = draw(st.lists(st.integers(0, max(1, max_photons)), unique=True, min_size=1, max_size=2))
-    return {"pred": ["total-in", sorted(modes), sorted(counts)]}
+    return {"pred": ["total-in", sorted(modes), sorted(counts)], "wrap": draw(st.booleans())}
 
 
 def accepts(ps, s) -> bool:
@@ -84,7 +86,12 @@ def to_real(ps, defer=None):
             else:
                 defer.append(lambda m=m, c=c: obj.add(m, c))
         return obj
-    p = ps["pred"]
+    fn = _pred_function(ps["pred"])
+    # a predicate may be given as a bare function or wrapped in the library's PostSelectionFunction
+    return lw.PostSelectionFunction(fn) if ps.get("wrap") else fn
+
+
+def _pred_function(p):
     if p[0] == "max-le":
         k = p[1]
         return lambda s: max(list(s), default=0) <= k
